@@ -148,6 +148,9 @@ type LatencyMetrics struct {
 	Min time.Duration `json:"min"`
 
 	estimator estimator
+	// added reports whether at least one latency was added, so that a
+	// legitimate Min of zero isn't mistaken for "not set yet".
+	added bool
 }
 
 // Add adds the given latency to the latency metrics.
@@ -156,9 +159,10 @@ func (l *LatencyMetrics) Add(latency time.Duration) {
 	if l.Total += latency; latency > l.Max {
 		l.Max = latency
 	}
-	if latency < l.Min || l.Min == 0 {
+	if latency < l.Min || !l.added {
 		l.Min = latency
 	}
+	l.added = true
 	l.estimator.Add(float64(latency))
 }
 
